@@ -127,7 +127,7 @@ def coq_cbs(percall):
 def run(ctx):
     ctx.rule = ("histories of watch/unwatch/unwatch_all/update on the real GeckoStructure and GeckoAsyncStructure with 5-10 real shipped items "
                 "(2-byte, bit-field and neighbouring items preferred, TempUnits + temperature items included), patches aimed at item boundaries "
-                "(straddling, one byte of a 2-byte item, miss by one, full refresh), duplicate registrations; callbacks per operation and final block "
+                "(straddling, one byte of a 2-byte item, miss by one, full refresh), updates that switch TempUnits and cover a temperature item whose stored reading stays / moves to the word that reads the same in the other unit, duplicate registrations; callbacks per operation and final block "
                 "compared with Model/Notify.v; non-trivial = history in which at least one callback fired and at least one touched item stayed silent")
     ctx.prove(timeout=2400)
     mods = gen_tables.load_tables()
@@ -153,6 +153,7 @@ def run(ctx):
         its = []
         if tu and temps and rng.random() < 0.5:
             its += tu + rng.sample(temps, min(2, len(temps)))
+            ctx.count("histories_with_units_and_temperatures")
         its += rng.sample(two, min(2, len(two))) + rng.sample(bits, min(3, len(bits)))
         # neighbours sharing a byte with a chosen item
         for it in list(its):
@@ -163,6 +164,8 @@ def run(ctx):
         seen = set()
         its = [x for x in its if not (x["tag"] in seen or seen.add(x["tag"]))][:10]
         blk0 = bytes(rng.randrange(256) for _ in range(1024))
+        if its and its[0]["tag"] == "TempUnits":
+            blk0 = blk0[:its[0]["pos"]] + bytes([rng.randrange(2)]) + blk0[its[0]["pos"] + 1:]
         base = h % 2          # odd observer ids are bound methods (see Client): half of the histories register and re-register those
         ops = [("W", i, base) for i in range(len(its)) if rng.random() < 0.85]
         ops += [("W", i, base) for i in range(len(its)) if rng.random() < 0.2]   # duplicate registrations
@@ -175,6 +178,10 @@ def run(ctx):
                 ops.append(("U", rng.randrange(len(its)), rng.randrange(3)))
             elif r < 0.35:
                 ops.append(("UA", rng.randrange(len(its))))
+            elif r < 0.47 and its and its[0]["tag"] == "TempUnits":
+                # one update that switches the units and covers a temperature item: its stored reading either stays (nobody may be
+                # told) or moves to the word that reads the same number in the other unit (everybody must be told)
+                ops.append(("PU", rng.choice([i for i, x in enumerate(its) if x["temp"]]), rng.choice(["keep", "keep", "coincide", "other"])))
             else:
                 it = rng.choice(its)
                 g = rng.random()
@@ -196,6 +203,25 @@ def run(ctx):
         blk = bytearray(blk0)
         rops = []
         for op in ops:
+            if op[0] == "PU":
+                t_it, u_it = its[op[1]], its[0]
+                lo, hi = min(t_it["pos"], u_it["pos"]), max(t_it["pos"] + 2, u_it["pos"] + 1)
+                seg = list(blk[lo:hi])
+                was_c = blk[u_it["pos"]] == 1
+                seg[u_it["pos"] - lo] = 0 if was_c else 1
+                raw = (blk[t_it["pos"]] << 8) | blk[t_it["pos"] + 1]
+                if op[2] == "coincide":
+                    # C: raw / 18 ; F: (raw + 320) / 10
+                    new = (raw * 10 - 320 * 18) // 18 if was_c else ((raw + 320) * 18) // 10
+                    raw2 = new if 0 <= new < 65536 else raw
+                elif op[2] == "other":
+                    raw2 = rng.randrange(65536)
+                else:
+                    raw2 = raw
+                seg[t_it["pos"] - lo], seg[t_it["pos"] - lo + 1] = raw2 >> 8, raw2 & 255
+                blk[lo:hi] = bytes(seg)
+                rops.append(("P", lo, seg))
+                continue
             if op[0] == "P":
                 off, seg = op[1], op[2]
                 if isinstance(seg, tuple):
